@@ -2550,7 +2550,19 @@ func NewExtendedCommunitiesAttributeFromNative(a *bgp.PathAttributeExtendedCommu
 				},
 			}
 		default:
-			return nil, fmt.Errorf("unsupported extended community: %v", value)
+			// An extended community the API has no dedicated message for
+			// (e.g. the EVPN layer 2 attributes): report its octets as an
+			// unknown extended community instead of failing the whole path.
+			buf, err := value.Serialize()
+			if err != nil || len(buf) != bgp.ExtendedCommunityLen {
+				return nil, fmt.Errorf("unsupported extended community: %v", value)
+			}
+			community.Extcom = &api.ExtendedCommunity_Unknown{
+				Unknown: &api.UnknownExtended{
+					Type:  uint32(buf[0]),
+					Value: buf[1:],
+				},
+			}
 		}
 		communities = append(communities, &community)
 	}
